@@ -65,7 +65,7 @@ func genContent(ch *core.Chooser, hosts []string, bufHint int, maxLines int) str
 			break
 		}
 		var line string
-		switch c := ch.Intn("content.class", 16); {
+		switch c := ch.Intn("content.class", 20); {
 		case c <= 6:
 			line = workload.GenRule(ch, workload.AllKinds[ch.Intn("list.kind", len(workload.AllKinds))], hosts, nil)
 		case c == 7:
@@ -126,6 +126,23 @@ func genContent(ch *core.Chooser, hosts []string, bufHint int, maxLines int) str
 			default:
 				line = "||" + hosts[0] + "^\r$important"
 			}
+		case c == 15:
+			// white space that strings.TrimSpace removes but ' '/'\t'
+			// trimming does not, and bytes that are not valid UTF-8
+			r := workload.GenRule(ch, workload.KBlock, hosts, nil)
+			ws := []string{"\f", "\v", "\u00a0", "\u2003", "\u0085", "\xff\xfe", "\x00", "\r\r"}
+			w := ws[ch.Intn("content.ws", len(ws))]
+			switch ch.Intn("content.wspos", 3) {
+			case 0:
+				line = r + w
+			case 1:
+				line = w + r
+			default:
+				line = w
+			}
+		case c == 16:
+			// lines whose KIND is easy to get wrong
+			line = []string{hosts[0] + " #c", hosts[0] + " # c", "1.2.3.4", "::1 localhost # x", hosts[0] + "##", "#@#.x", "$$script", "||", "|", "*$image", "0.0.0.0 " + hosts[0] + " ## phishing", hosts[0] + "#comment", "! ||" + hosts[0] + "^", "#||" + hosts[0] + "^", "# " + hosts[0], "\r"}[ch.Intn("content.ambig", 16)]
 		default:
 			line = workload.GenRule(ch, workload.KCosmetic, hosts, nil)
 		}
@@ -190,6 +207,26 @@ func RunC11(ch *core.Chooser, env *Env) *Outcome {
 		lists = append(lists, disk.ListPlan{ID: id, Text: genContent(ch, hosts, knob, maxLines), IgnoreCosmetic: ch.Intn("list.igncos", 3) == 2})
 		ch.End()
 	}
+	// rarely: tens of thousands of short lines, so that offsets pass 64 KiB
+	// and 1 MiB (only a sample of the indexes is retrieved then)
+	many := ch.Intn("c11.many", 400) == 399
+	if many {
+		nl := 18000 + ch.Intn("c11.manyn", 30000)
+		if knob < 64 {
+			knob = 64
+		}
+		var b strings.Builder
+		b.WriteString(lists[0].Text)
+		if !strings.HasSuffix(lists[0].Text, "\n") && lists[0].Text != "" {
+			b.WriteString("\n")
+		}
+		for i := 0; i < nl; i++ {
+			fmt.Fprintf(&b, "||m%d.example.org^\n", i)
+		}
+		b.WriteString(lists[0].Text)
+		lists[0].Text = b.String()
+		out.Probes["runs_with_offsets_beyond_1MiB"]++
+	}
 	fail := func(class, detail string) *Outcome {
 		out.Violation = &Violation{Class: class, Detail: detail}
 		if env.KeepTrace {
@@ -220,6 +257,9 @@ func RunC11(ch *core.Chooser, env *Env) *Outcome {
 	splitCRLF, splitUTF8, reads := 0, 0, 0
 	for li, l := range lists {
 		maxChunk := []int{1, 2, 3, 5, 16, 100, 4096, 8192}[ch.Intn("chunk.max", 8)]
+		if many && maxChunk < 4096 {
+			maxChunk = 4096
+		}
 		cr := &disk.ChunkReader{Data: []byte(l.Text), Max: maxChunk, Ch: ch}
 		var sc *filterlist.RuleScanner
 		var got []refRule
@@ -287,6 +327,13 @@ func RunC11(ch *core.Chooser, env *Env) *Outcome {
 		j := ch.Intn("retr.perm", i+1)
 		perm[i], perm[j] = perm[j], perm[i]
 	}
+	if many && len(perm) > 2500 {
+		// a sample, plus the tail of the last list (largest offsets)
+		perm = perm[:2000]
+		for i := len(wants) - 60; i < len(wants); i++ {
+			perm = append(perm, i)
+		}
+	}
 
 	opKinds := []int{workload.OpDNS, workload.OpDNS, workload.OpWeb, workload.OpMatchAll, workload.OpMatch, workload.OpCosmetic}
 	var reqs []workload.Op
@@ -308,33 +355,37 @@ func RunC11(ch *core.Chooser, env *Env) *Outcome {
 		}
 		var v *Outcome
 		perr := safely(func() {
-			// storage scan == reference, with reference-computed indices
-			sc := b.Storage.NewRuleStorageScanner()
-			k := 0
-			for sc.Scan() {
-				r, idx := sc.Rule()
-				if k >= len(wants) {
-					v = fail("scan-differs:"+cfg.name, fmt.Sprintf("the storage scanner yields more than the %d reference rules; extra: %s at index %d", len(wants), ruleSig(r), idx))
+			// storage scan == reference, with reference-computed indices;
+			// scanned twice: engines scan a storage several times, and a
+			// file-backed list has to rewind
+			for scanNo := 0; scanNo < 2 && v == nil; scanNo++ {
+				sc := b.Storage.NewRuleStorageScanner()
+				k := 0
+				for sc.Scan() {
+					r, idx := sc.Rule()
+					if k >= len(wants) {
+						v = fail("scan-differs:"+cfg.name, fmt.Sprintf("the storage scanner yields more than the %d reference rules; extra: %s at index %d", len(wants), ruleSig(r), idx))
+						return
+					}
+					w := wants[k]
+					if ruleSig(r) != refSig(w.r) || idx != w.idx {
+						v = fail("scan-differs:"+cfg.name, fmt.Sprintf("rule #%d of the storage scan\n got:  %s index %d\n want: %s index %d (list %d offset %d)", k, ruleSig(r), idx, refSig(w.r), w.idx, w.r.id, w.r.offset))
+						return
+					}
+					if int32(idx>>32) != int32(lists[w.li].ID) || int(int32(idx)) != w.r.offset {
+						v = fail("index-not-invertible", fmt.Sprintf("index %d does not decompose into list %d offset %d", idx, lists[w.li].ID, w.r.offset))
+						return
+					}
+					k++
+				}
+				if k != len(wants) {
+					v = fail("scan-differs:"+cfg.name, fmt.Sprintf("scan #%d of the storage stops after %d of %d reference rules; next expected: %s", scanNo+1, k, len(wants), refSig(wants[k].r)))
 					return
 				}
-				w := wants[k]
-				if ruleSig(r) != refSig(w.r) || idx != w.idx {
-					v = fail("scan-differs:"+cfg.name, fmt.Sprintf("rule #%d of the storage scan\n got:  %s index %d\n want: %s index %d (list %d offset %d)", k, ruleSig(r), idx, refSig(w.r), w.idx, w.r.id, w.r.offset))
-					return
-				}
-				if int32(idx>>32) != int32(lists[w.li].ID) || int(int32(idx)) != w.r.offset {
-					v = fail("index-not-invertible", fmt.Sprintf("index %d does not decompose into list %d offset %d", idx, lists[w.li].ID, w.r.offset))
-					return
-				}
-				k++
 			}
-			if k != len(wants) {
-				v = fail("scan-differs:"+cfg.name, fmt.Sprintf("the storage scanner stops after %d of %d reference rules; next expected: %s", k, len(wants), refSig(wants[k].r)))
-				return
-			}
-			// retrieval in permuted order, twice (cold, then cached), through
-			// the storage and directly through the list
-			for pass := 0; pass < 2; pass++ {
+			// retrieval in permuted order, three times (cold, then cached
+			// twice), through the storage and directly through the list
+			for pass := 0; pass < 3; pass++ {
 				for _, pi := range perm {
 					w := wants[pi]
 					r, err := b.Storage.RetrieveRule(w.idx)
@@ -355,6 +406,23 @@ func RunC11(ch *core.Chooser, env *Env) *Outcome {
 					}
 				}
 			}
+			// a second storage over the SAME list objects must agree
+			if s2, err := filterlist.NewRuleStorage(b.Lists); err == nil {
+				for n, pi := range perm {
+					if n >= 40 {
+						break
+					}
+					w := wants[pi]
+					r, err := s2.RetrieveRule(w.idx)
+					if err != nil || r == nil || ruleSig(r) != refSig(w.r) {
+						v = fail("retrieve-differs:"+cfg.name, fmt.Sprintf("a second storage over the same lists: RetrieveRule(%d)\n got:  %v err=%v\n want: %s", w.idx, r, err, refSig(w.r)))
+						return
+					}
+				}
+			}
+			if many && cfg.name != "string" {
+				return
+			}
 			// engines over this backing
 			e := workload.NewEngines(b.Storage)
 			var ans []string
@@ -372,6 +440,9 @@ func RunC11(ch *core.Chooser, env *Env) *Outcome {
 		}
 	}
 	for c := 1; c < len(engineAnswers); c++ {
+		if many {
+			break
+		}
 		for i := range reqs {
 			h = fnv(h, engineAnswers[c][i])
 			if engineAnswers[c][i] != engineAnswers[0][i] {
